@@ -335,6 +335,9 @@ impl<'a> Judge<'a> {
             }
             e -= 1;
         }
+        if e < 0 {
+            return self.stop("oracle depth negative after deindent");
+        }
         let out = self.out_lines.get(ln).copied().unwrap_or("");
         let lead: String = out.chars().take_while(|c| is_ws(*c)).collect();
         let want = " ".repeat(2 * e as usize);
